@@ -9,6 +9,7 @@ import sympy
 from wadler_lindig import pformat
 
 from mxlpy.meta.sympy_tools import fn_to_sympy, list_of_symbols
+from mxlpy.types import Derived
 
 if TYPE_CHECKING:
     from mxlpy.model import Model
@@ -104,17 +105,35 @@ def to_symbolic_model(model: Model) -> SymbolicModel:
 
     # Go through stoichiometries & derived stoichiometries
     eqs: dict[str, sympy.Expr] = {}
+    raw_reactions = model.get_raw_reactions()
     for cpd, stoich in cache.stoich_by_cpds.items():
         for rxn, stoich_value in stoich.items():
-            eqs[cpd] = (
-                eqs.get(cpd, sympy.Float(0.0)) + sympy.Float(stoich_value) * rxns[rxn]  # type: ignore
-            )
+            # The cache holds the current number of coefficients that only depend on
+            # parameters, but the parameters themselves stay symbols
+            factor = raw_reactions[rxn].stoichiometry[cpd] if rxn in raw_reactions else None
+            if isinstance(factor, Derived):
+                coefficient = fn_to_sympy(
+                    factor.fn,
+                    origin=f"{rxn}:{cpd}",
+                    model_args=[symbols[i] for i in factor.args],
+                )
+                if coefficient is None:
+                    msg = f"Unable to parse stoichiometry of '{cpd}' in '{rxn}'"
+                    raise ValueError(msg)
+            else:
+                coefficient = sympy.Float(stoich_value)
+            eqs[cpd] = eqs.get(cpd, sympy.Float(0.0)) + coefficient * rxns[rxn]  # type: ignore
     for cpd, dstoich in cache.dyn_stoich_by_cpds.items():
         for rxn, der in dstoich.items():
-            eqs[cpd] = eqs.get(cpd, sympy.Float(0.0)) + fn_to_sympy(
+            coefficient = fn_to_sympy(
                 der.fn,
-                [symbols[i] for i in der.args] * rxns[rxn],  # type: ignore
-            )  # type: ignore
+                origin=f"{rxn}:{cpd}",
+                model_args=[symbols[i] for i in der.args],
+            )
+            if coefficient is None:
+                msg = f"Unable to parse stoichiometry of '{cpd}' in '{rxn}'"
+                raise ValueError(msg)
+            eqs[cpd] = eqs.get(cpd, sympy.Float(0.0)) + coefficient * rxns[rxn]  # type: ignore
 
     return SymbolicModel(
         variables=variables,
